@@ -38,7 +38,14 @@ from fnmatch import fnmatch
 from typing import TYPE_CHECKING
 
 from .file import ensure_dir_exists
-from .index import Index, IndexEntry
+from .index import (
+    Index,
+    IndexEntry,
+    InvalidPathError,
+    get_path_element_validator,
+    validate_path,
+    verify_leading_dirs,
+)
 from .objects import Blob
 from .repo import Repo
 
@@ -211,9 +218,24 @@ def apply_included_paths(
     index.write()
 
     # 2) Reflect changes in the working tree
+    #
+    # The index may name paths that were never checked out (reset --mixed,
+    # read-tree of an untrusted commit), so apply the same rules as checkout:
+    # refuse unsafe names (``.git``, ``..``, absolute paths, ...) and never
+    # create or remove anything through a symlinked leading directory.
+    validate_path_element = get_path_element_validator(config)
+    repo_path_bytes = os.fsencode(repo.path)
     for path_bytes, entry in list(index.items()):
         if not isinstance(entry, IndexEntry):
             continue  # Skip conflicted entries
+        try:
+            if not validate_path(path_bytes, validate_path_element):
+                raise InvalidPathError(path_bytes)
+            verify_leading_dirs(path_bytes, [], repo_path_bytes)
+        except InvalidPathError:
+            if entry.skip_worktree:
+                continue  # nothing of ours can live there: leave it alone
+            raise
         full_path = os.path.join(repo.path, path_bytes.decode("utf-8"))
 
         if entry.skip_worktree:
@@ -234,8 +256,9 @@ def apply_included_paths(
                     if not force:
                         raise
         else:
-            # Included => materialize if missing
-            if not os.path.exists(full_path):
+            # Included => materialize if missing (lexists: a dangling symlink
+            # left at the path must not be written through)
+            if not os.path.lexists(full_path):
                 try:
                     blob = repo.object_store[entry.sha]
                 except KeyError:
